@@ -26,8 +26,11 @@ def tla(x):
     if isinstance(x, dict):
         if not x:
             return "<<>>"
-        if all(isinstance(k, int) for k in x):  # function on ids
-            return "(" + " @@ ".join("%s :> %s" % (tla(k), tla(v)) for k, v in sorted(x.items())) + ")"
+        if all(isinstance(k, int) for k in x):  # function on ids; a balanced tree of @@ (a flat chain of 1 700 overflows SANY's / TLC's stack)
+            items = ["(%s :> %s)" % (tla(k), tla(v)) for k, v in sorted(x.items())]
+            while len(items) > 1:
+                items = ["(%s @@ %s)" % (items[k], items[k + 1]) if k + 1 < len(items) else items[k] for k in range(0, len(items), 2)]
+            return items[0]
         return "[" + ", ".join("%s |-> %s" % (k, tla(v)) for k, v in x.items()) + "]"
     raise TypeError(type(x))
 
